@@ -219,13 +219,19 @@ where
             let cell = a.cells_mut().nth(i).unwrap();
             *cell = supplied.pop_front().unwrap();
         }
+        MutOp::UncheckedSet { c, r } => unsafe {
+            *a.get_unchecked_mut((c, r)) = supplied.pop_front().unwrap();
+        },
+        MutOp::UncheckedRowSet { r, c } => unsafe {
+            a.get_unchecked_row_mut(r)[c] = supplied.pop_front().unwrap();
+        },
     }
 }
 
 /// How many elements the harness must mint for an in-place op applied to a grid of this size.
 fn supplied_count(op: &MutOp) -> usize {
     match *op {
-        MutOp::Fill | MutOp::SetCoord { .. } | MutOp::SetRowCol { .. } | MutOp::RowsMutSet { .. } | MutOp::ColMutSet { .. } | MutOp::CellsMutSet { .. } => 1,
+        MutOp::Fill | MutOp::SetCoord { .. } | MutOp::SetRowCol { .. } | MutOp::RowsMutSet { .. } | MutOp::ColMutSet { .. } | MutOp::CellsMutSet { .. } | MutOp::UncheckedSet { .. } | MutOp::UncheckedRowSet { .. } => 1,
         MutOp::CloneFromSlice { len } => len,
         MutOp::CloneFromToodee { c, r } => c * r,
         _ => 0,
@@ -856,6 +862,9 @@ impl<E: Elem> Engine<E> {
                 } else {
                     let (es, vs) = Self::mint_many(n);
                     verdict = m2.apply_mut(mop, &vs, false);
+                    if verdict == Verdict::Skip {
+                        skip_step = true;
+                    }
                     if let MutOp::Sort { variant, idx, m, desc, lawless } = mop {
                         if verdict == Verdict::Accept && (*lawless || !variant.stable()) {
                             unstable_sort = Some((*variant, *idx, *m, *desc, *lawless, None));
@@ -867,7 +876,9 @@ impl<E: Elem> Engine<E> {
                     let mut supplied: VecDeque<E> = es.into();
                     let arr = &mut self.arr;
                     run!(|| {
-                        exec_mut_op(arr, mop, &mut supplied);
+                        if !skip_step {
+                            exec_mut_op(arr, mop, &mut supplied);
+                        }
                         Ok(())
                     });
                 }
@@ -901,7 +912,15 @@ impl<E: Elem> Engine<E> {
                 // always judged by the relaxed oracle (validity, provenance), never by equality.
                 always_relaxed = true;
                 let n = supplied_count(mop);
-                let skip = self.model.win_is_n1(win) || !self.model.win_ok(win) || matches!(mop, MutOp::CloneFromToodee { c, r } if Model::dims_ok(*c, *r).is_none()) || n > 4096;
+                let unchecked_oob = self.model.win_ok(win) && {
+                    let sub = self.model.sub(win);
+                    match mop {
+                        MutOp::UncheckedSet { c, r } => *c >= sub.cols || *r >= sub.num_rows(),
+                        MutOp::UncheckedRowSet { r, .. } => *r >= sub.num_rows(),
+                        _ => false,
+                    }
+                };
+                let skip = unchecked_oob || self.model.win_is_n1(win) || !self.model.win_ok(win) || matches!(mop, MutOp::CloneFromToodee { c, r } if Model::dims_ok(*c, *r).is_none()) || n > 4096;
                 if skip {
                     verdict = Verdict::Skip;
                     outcome = Ok(Ok(()));
